@@ -78,7 +78,43 @@ func TestVerif_C18_SM2Tables(t *testing.T) {
 				mut(r6)
 			}
 		}
-		rec.Note("tables are enumerated after a workload of 64 x 8 multiplications whose results were modified in place")
+		// the generic comb routine with every combination of a main table and a remainder table that its own parameter checks
+		// accept: a remainder table holds [1]G..[2^r-1]G, so a WIDER one (another scheme's) serves as well — the call is legal
+		// and gives the same point; tables shared between schemes must survive it
+		type remT struct {
+			name string
+			t    *[][]*[4]uint64
+		}
+		rems := []remT{{"6_3_14_Remainder", &sm2Precomputed_6_3_14_Remainder}, {"5_3_17_Remainder", &sm2Precomputed_5_3_17_Remainder}, {"7_3_12_Remainder", &sm2Precomputed_7_3_12_Remainder}}
+		mains := []struct {
+			name            string
+			t               *[][][]*[4]uint64
+			w, sub, it, rem int
+		}{{"6_3_14", &sm2Precomputed_6_3_14, 6, 3, 14, 4}, {"5_3_17", &sm2Precomputed_5_3_17, 5, 3, 17, 1}, {"7_3_12", &sm2Precomputed_7_3_12, 7, 3, 12, 4}}
+		crossed := 0
+		for _, m := range mains {
+			for _, rt := range rems {
+				if len((*rt.t)[0]) < 1<<uint(m.rem)-1 {
+					continue
+				}
+				for g := 1; g < 40; g += 3 {
+					gb := make([]byte, 32)
+					gb[31], gb[3], gb[17] = byte(g), byte(g*29), byte(g*53)
+					var got *SM2Point
+					if p := vt.Catch(func() { got, _ = scalarBaseMult_SkipBitExtration(gb, m.t, rt.t, m.w, m.sub, m.it, m.rem) }); p != nil {
+						vt.Fail(t, rec, "C18:sm2:cross-scheme-call", "comb routine with main table %s and remainder table %s panicked: %v", m.name, rt.name, p)
+						continue
+					}
+					want, _ := ScalarMult(NewSM2Generator(), gb)
+					if got == nil || !bytes.Equal(got.Bytes_Unsafe(), want.Bytes_Unsafe()) {
+						vt.Fail(t, rec, "C18:sm2:cross-scheme-call", "comb routine with main table %s and remainder table %s gives a wrong point for k=%x", m.name, rt.name, gb)
+					}
+					mut(got)
+					crossed++
+				}
+			}
+		}
+		rec.Note("tables are enumerated after a workload of 64 x 8 multiplications whose results were modified in place, and %d calls of the comb routine with another scheme's (wider) remainder table", crossed)
 	}
 	checkPt := func(tab string, j, i int, x, y *[4]uint64, k *big.Int) {
 		rec.Enumerated(1, "table:"+tab)
